@@ -573,7 +573,9 @@ def expr_facet(c, which="normal"):
     V = c.V("Lagrange", 2)
     f = Coefficient(V)
     n = c.n
-    e = {"normal": lambda: n * f, "flux": lambda: dot(grad(f), n), "x": lambda: c.x}[which]()
+    u = TrialFunction(V)
+    e = {"normal": lambda: n * f, "flux": lambda: dot(grad(f), n), "x": lambda: c.x,
+         "rank1_u": lambda: u * f, "rank1_flux": lambda: dot(grad(u), n) * (1 + f), "rank1_grad": lambda: grad(u)}[which]()
     ft = basix.cell.subentity_types(basix.CellType[c.cell])[c.tdim - 1][0]
     pts, _ = basix.make_quadrature(ft, 3)
     return (e, np.ascontiguousarray(pts))
@@ -1019,6 +1021,13 @@ def complex_ops(c, which=0):
         # derivative in complex mode
         F = inner((1 + f * f) * grad(f), grad(v)) * dx
         return derivative(F, f, u)
+    if which == 6:
+        # a non-real factor INSIDE the conjugated (test) slot
+        g = Coefficient(V)
+        return inner(u, k * f * v) * dx + inner(grad(u), (2.0 + 1j) * g * grad(v)) * dx
+    if which == 7:
+        g = Coefficient(V)
+        return inner(g, f * v) * dx + u * ufl.conj(k * f * v) * dx if False else inner(g, f * v) * dx
     if which == 5:
         n = c.n
         return (inner(jump(u), jump(v)) + (0.5 + 1j) * inner(avg(grad(u)), n("+")) * ufl.conj(jump(v)) + f("+") * ufl.conj(f("-")) * inner(u("+"), v("-"))) * dS
@@ -1244,3 +1253,11 @@ def expr_two_meshes(c, which=0):
     g = Coefficient(FunctionSpace(mesh2, basix.ufl.element("Lagrange", c.cell, 2)))
     e = [lambda: f * g, lambda: g * f + f, lambda: grad(f) * g][which]()
     return (e, _ref_points(c.cell, "interior", 3))
+
+
+@builder
+def facet_edge_lengths(c):
+    """Min/MaxFacetEdgeLength lower to FacetEdgeVectors, which ffcx tabulates from an INTEGER table of facet edge vertices."""
+    V = c.V("Lagrange", 1)
+    v = TestFunction(V)
+    return (ufl.MinFacetEdgeLength(c.mesh) + 2 * ufl.MaxFacetEdgeLength(c.mesh)) * v * ds
